@@ -43,9 +43,11 @@ pub enum NetOp {
     Prack { rack_ok: bool, cseq_ok: bool },
     /// ACK for the 2xx; flag: CSeq number matches the INVITE
     Ack { cseq_ok: bool },
+    /// re-INVITE inside the dialog (next CSeq); the application answers it 488 when it gets to it
+    ReInvite,
 }
 
-#[derive(Serialize, Deserialize, Clone, Debug, Hash)]
+#[derive(Serialize, Deserialize, Clone, Debug, Hash, Default)]
 pub struct Case {
     /// application ops on the acceptor, executed in this order, each not before its time
     pub app: Vec<(u64, AppOp)>,
@@ -54,6 +56,17 @@ pub struct Case {
     /// network events are injected before (true) or after (false) the application ops that share their instant
     pub net_first: bool,
     pub rng: u8,
+    /// the transport reports itself reliable (a 2xx and a reliable 1xx are retransmitted end-to-end all the same:
+    /// RFC 3261 13.3.1.4, RFC 3262 3)
+    #[serde(default)]
+    pub reliable: bool,
+    /// everything after the INVITE arrives from another source port of the peer (a CANCEL, ACK, BYE or copy of the
+    /// INVITE belongs to its transaction / dialog by its header fields, not by the packet's source)
+    #[serde(default)]
+    pub alt_source: bool,
+    /// the application starts driving the established session only this long after `respond_success` returned
+    #[serde(default)]
+    pub session_busy_ms: u64,
 }
 
 // ---------------------------------------------------------------------------------------------
@@ -150,7 +163,7 @@ pub fn run(case: &Case, horizon: u64) -> Observed {
     let case = case.clone();
     run_world(case.rng as u64, |clock| async move {
         let log = WireLog::new(clock);
-        let (tp, _) = mock_datagram(&log, "UDP", false, false, "10.0.0.1:5060");
+        let (tp, _) = mock_datagram(&log, "UDP", false, case.reliable, "10.0.0.1:5060");
         let rec = Recorder::new(clock);
         let (tx, mut rx) = mpsc::unbounded_channel();
         let mut b = offline_builder();
@@ -159,6 +172,7 @@ pub fn run(case: &Case, horizon: u64) -> Observed {
         b.add_layer(AcceptLayer { dialog_layer: dl, invite_layer: il, tx, rec: rec.clone() });
         let endpoint = b.build();
         let peer: SocketAddr = "192.0.2.9:5060".parse().unwrap();
+        let later_source: SocketAddr = if case.alt_source { "192.0.2.9:5099".parse().unwrap() } else { peer };
         let inv = invite_bytes();
         inject(&endpoint, &tp, peer, &inv);
         settle().await;
@@ -174,6 +188,7 @@ pub fn run(case: &Case, horizon: u64) -> Observed {
             let session_events = session_events.clone();
             let ops = case.app.clone();
             let endpoint = endpoint.clone();
+            let case = case.clone();
             tokio::spawn(async move {
                 let mut acceptor = Some(acceptor);
                 for (t, op) in ops {
@@ -220,7 +235,11 @@ pub fn run(case: &Case, horizon: u64) -> Observed {
                                     Ok((mut session, _ack)) => {
                                         let session_events = session_events.clone();
                                         let endpoint = endpoint.clone();
+                                        let busy = case.session_busy_ms;
                                         tokio::spawn(async move {
+                                            if busy > 0 {
+                                                clock.advance(busy).await;
+                                            }
                                             loop {
                                                 match session.drive().await {
                                                     Ok(Event::Bye(ev)) => {
@@ -229,8 +248,14 @@ pub fn run(case: &Case, horizon: u64) -> Observed {
                                                     }
                                                     Ok(Event::ReInviteReceived(ev)) => {
                                                         session_events.lock().push((clock.now_ms(), "reinvite".into()));
-                                                        let response = endpoint.create_response(&ev.invite, Code::OK, None);
-                                                        let _ = ev.respond_success(response).await;
+                                                        // declined; the 488 is retransmitted by its transaction while
+                                                        // the application goes on driving the session
+                                                        let sip_ua::invite::session::ReInviteReceived { invite, transaction, .. } = ev;
+                                                        let response = endpoint.create_response(&invite, Code::from(488), None);
+                                                        tokio::spawn(async move {
+                                                            let _ = transaction.respond_failure(response).await;
+                                                            drop(invite);
+                                                        });
                                                     }
                                                     Ok(Event::RefreshNeeded(_)) => {}
                                                     Ok(Event::Terminated) => {
@@ -298,6 +323,10 @@ pub fn run(case: &Case, horizon: u64) -> Observed {
                     next_cseq += 1;
                     in_dialog("BYE", &format!("z9hG4bKc12bye{n}"), next_cseq, &local_tag, &[format!("X-Seq: n{n}")])
                 }
+                NetOp::ReInvite => {
+                    next_cseq += 1;
+                    in_dialog("INVITE", &format!("z9hG4bKc12reinv{n}"), next_cseq, &local_tag, &[format!("X-Seq: n{n}"), "Contact: <sip:peer@192.0.2.9>".into()])
+                }
                 NetOp::Prack { rack_ok, cseq_ok } => {
                     let r = rseq.unwrap_or(1);
                     next_cseq += 1;
@@ -320,7 +349,7 @@ pub fn run(case: &Case, horizon: u64) -> Observed {
                     &[format!("X-Seq: n{n}")],
                 ),
             };
-            inject(&endpoint, &tp, peer, &bytes);
+            inject(&endpoint, &tp, later_source, &bytes);
             settle().await;
         }
         clock.until(horizon).await;
@@ -377,6 +406,10 @@ pub struct AcceptCase {
     pub acks: Vec<(u64, bool)>,
     pub prov_first: bool,
     pub rng: u8,
+    #[serde(default)]
+    pub reliable: bool,
+    #[serde(default)]
+    pub alt_source: bool,
 }
 
 fn ack_grid() -> Vec<u64> {
@@ -390,14 +423,29 @@ fn ack_grid() -> Vec<u64> {
 }
 
 pub fn accept_cases(tier: Tier) -> Vec<AcceptCase> {
-    let mut out = vec![AcceptCase { accept_at: 0, acks: vec![], prov_first: false, rng: 0 }, AcceptCase { accept_at: 30, acks: vec![], prov_first: true, rng: 1 }];
+    let mut out = vec![];
+    for (reliable, alt_source) in [(false, false), (true, false), (false, true), (true, true)] {
+        for mut c in accept_cases_base(tier) {
+            if (reliable || alt_source) && tier == Tier::Quick && c.acks.len() > 1 {
+                continue;
+            }
+            c.reliable = reliable;
+            c.alt_source = alt_source;
+            out.push(c);
+        }
+    }
+    out
+}
+
+fn accept_cases_base(tier: Tier) -> Vec<AcceptCase> {
+    let mut out = vec![AcceptCase { accept_at: 0, acks: vec![], prov_first: false, rng: 0, reliable: false, alt_source: false }, AcceptCase { accept_at: 30, acks: vec![], prov_first: true, rng: 1, reliable: false, alt_source: false }];
     for (i, a) in ack_grid().into_iter().enumerate() {
         for accept_at in [0u64, 30] {
-            out.push(AcceptCase { accept_at, acks: vec![(a, true)], prov_first: i % 2 == 0, rng: i as u8 });
+            out.push(AcceptCase { accept_at, acks: vec![(a, true)], prov_first: i % 2 == 0, rng: i as u8, reliable: false, alt_source: false });
             // an ACK with another CSeq first: changes nothing
-            out.push(AcceptCase { accept_at, acks: vec![(a, false)], prov_first: false, rng: i as u8 });
+            out.push(AcceptCase { accept_at, acks: vec![(a, false)], prov_first: false, rng: i as u8, reliable: false, alt_source: false });
             if tier == Tier::Thorough || i % 3 == 0 {
-                out.push(AcceptCase { accept_at, acks: vec![(a.saturating_sub(200).max(1), false), (a, true)], prov_first: false, rng: i as u8 });
+                out.push(AcceptCase { accept_at, acks: vec![(a.saturating_sub(200).max(1), false), (a, true)], prov_first: false, rng: i as u8, reliable: false, alt_source: false });
             }
         }
     }
@@ -412,7 +460,7 @@ pub fn check_accept(c: &AcceptCase, out: &mut CaseOut) {
     app.push((c.accept_at, AppOp::Accept));
     let mut net: Vec<(u64, NetOp)> = c.acks.iter().map(|(t, ok)| (c.accept_at + t, NetOp::Ack { cseq_ok: *ok })).collect();
     net.sort_by_key(|n| n.0);
-    let case = Case { app, net, net_first: false, rng: c.rng };
+    let case = Case { app, net, net_first: false, rng: c.rng, reliable: c.reliable, alt_source: c.alt_source, session_busy_ms: 0 };
     let horizon = c.accept_at + TIMEOUT + T2 + 3000;
     let obs = run(&case, horizon);
     out.note = Some(describe(&obs));
@@ -463,6 +511,12 @@ pub fn check_accept(c: &AcceptCase, out: &mut CaseOut) {
         ),
     }
     out.class(if good_ack.is_some() { "acked" } else { "ack-lost" });
+    if c.reliable {
+        out.class("reliable transport");
+    }
+    if c.alt_source {
+        out.class("ACK from another source port");
+    }
     if c.acks.iter().any(|(_, ok)| !*ok) {
         out.class("ack-with-other-cseq");
     }
@@ -477,23 +531,42 @@ pub struct RelCase {
     /// (time after the 183, rack matches, cseq matches)
     pub pracks: Vec<(u64, bool, bool)>,
     pub rng: u8,
+    #[serde(default)]
+    pub reliable: bool,
+    #[serde(default)]
+    pub alt_source: bool,
 }
 
 pub fn rel_cases(tier: Tier) -> Vec<RelCase> {
+    let mut out = vec![];
+    for (reliable, alt_source) in [(false, false), (true, false), (false, true)] {
+        for (i, mut c) in rel_cases_base(tier).into_iter().enumerate() {
+            if (reliable || alt_source) && tier == Tier::Quick && i % 2 == 1 {
+                continue;
+            }
+            c.reliable = reliable;
+            c.alt_source = alt_source;
+            out.push(c);
+        }
+    }
+    out
+}
+
+fn rel_cases_base(tier: Tier) -> Vec<RelCase> {
     let mut grid = vec![1u64, 250];
     for s in ref_tsx::rel1xx_schedule().into_iter().skip(1) {
         grid.push(s - 1);
         grid.push(s + 1);
     }
-    let mut out = vec![RelCase { pracks: vec![], rng: 0 }];
+    let mut out = vec![RelCase { pracks: vec![], rng: 0, reliable: false, alt_source: false }];
     for (i, t) in grid.iter().enumerate() {
         if *t > 16_000 && tier == Tier::Quick && i % 2 == 0 {
             continue;
         }
-        out.push(RelCase { pracks: vec![(*t, true, true)], rng: i as u8 });
-        out.push(RelCase { pracks: vec![(*t, false, true)], rng: i as u8 });
-        out.push(RelCase { pracks: vec![(*t, true, false)], rng: i as u8 });
-        out.push(RelCase { pracks: vec![(t.saturating_sub(100).max(1), false, true), (*t, true, true)], rng: i as u8 });
+        out.push(RelCase { pracks: vec![(*t, true, true)], rng: i as u8, reliable: false, alt_source: false });
+        out.push(RelCase { pracks: vec![(*t, false, true)], rng: i as u8, reliable: false, alt_source: false });
+        out.push(RelCase { pracks: vec![(*t, true, false)], rng: i as u8, reliable: false, alt_source: false });
+        out.push(RelCase { pracks: vec![(t.saturating_sub(100).max(1), false, true), (*t, true, true)], rng: i as u8, reliable: false, alt_source: false });
     }
     out
 }
@@ -501,7 +574,7 @@ pub fn rel_cases(tier: Tier) -> Vec<RelCase> {
 pub fn check_rel(c: &RelCase, out: &mut CaseOut) {
     let mut net: Vec<(u64, NetOp)> = c.pracks.iter().map(|(t, r, s)| (*t, NetOp::Prack { rack_ok: *r, cseq_ok: *s })).collect();
     net.sort_by_key(|n| n.0);
-    let case = Case { app: vec![(0, AppOp::Rel183)], net: net.clone(), net_first: false, rng: c.rng };
+    let case = Case { app: vec![(0, AppOp::Rel183)], net: net.clone(), net_first: false, rng: c.rng, reliable: c.reliable, alt_source: c.alt_source, session_busy_ms: 0 };
     let obs = run(&case, TIMEOUT + 5000);
     out.note = Some(describe(&obs));
     let sends: Vec<u64> = responses_for(&obs, BRANCH, INVITE_CSEQ, "INVITE").iter().filter(|(_, m)| m.status() == Some(183)).map(|(s, _)| s.t_ms).collect();
@@ -590,13 +663,25 @@ pub fn race_strategy() -> BoxedStrategy<Case> {
         prop::collection::vec((any::<u16>(), net_op), 1..5),
         any::<bool>(),
         any::<u8>(),
+        prop_oneof![3 => Just(false), 1 => Just(true)],
+        prop_oneof![2 => Just(false), 1 => Just(true)],
     )
-        .prop_map(|(app, net, net_first, rng)| {
+        .prop_map(|(app, net, net_first, rng, reliable, alt_source)| {
             let mut app: Vec<(u64, AppOp)> = app.into_iter().map(|(s, o)| (RACE_TIMES[pick_idx(s, RACE_TIMES.len())], o)).collect();
             app.sort_by_key(|a| a.0);
             let mut net: Vec<(u64, NetOp)> = net.into_iter().map(|(s, o)| (RACE_TIMES[pick_idx(s, RACE_TIMES.len())], o)).collect();
             net.sort_by_key(|a| a.0);
-            Case { app, net, net_first, rng }
+            if reliable {
+                // over a reliable transport the peer never sends a request twice (no copy of the INVITE, one CANCEL
+                // per branch): a second copy would find its transaction gone and be a new request
+                let mut seen_cancel = [false; 2];
+                net.retain(|(_, o)| match o {
+                    NetOp::DupInvite => false,
+                    NetOp::Cancel { branch_ok, .. } => !std::mem::replace(&mut seen_cancel[*branch_ok as usize], true),
+                    _ => true,
+                });
+            }
+            Case { app, net, net_first, rng, reliable, alt_source, session_busy_ms: 0 }
         })
         .boxed()
 }
@@ -779,6 +864,12 @@ pub fn check_race(case: &Case, out: &mut CaseOut) {
     }
     if case.net.iter().any(|(_, o)| matches!(o, NetOp::Ack { .. })) && winner == Some(200) {
         out.class("2xx-with-ack");
+    }
+    if case.reliable {
+        out.class("reliable transport");
+    }
+    if case.alt_source {
+        out.class("CANCEL/BYE/ACK/copies from another source port");
     }
     if close || admissible.len() > 1 {
         out.nontrivial(case);
